@@ -167,6 +167,8 @@ def property_checks(inp):
     nfr = 2 * inp["nfr2"]
     row = numpy.sqrt(var) * numpy.array([1.0, -1.0] * (nfr // 2))
     slopes = numpy.tile(row, (2, inp["nsub"], 1))
+    # a static offset per sub-aperture does not change the variance
+    slopes = slopes + numpy.sqrt(var) * numpy.array(inp["offsets"])[None, :inp["nsub"], None]
     A(("r0_from_slopes(slope variance of r0) = r0", _rel(ac.r0_from_slopes(slopes, w, d), r0), 1e-9))
     A(("slope variance ~ r0^(-5/3)", _rel(ac.slope_variance_from_r0(s * r0, w, d), s ** (-5. / 3) * var), 1e-9))
     # single layer
@@ -198,7 +200,7 @@ def gen_input(rng):
             "seeing": rng.loguniform(0.1, 5.0), "s": rng.loguniform(0.2, 5.0), "mag": rng.uniform(-2, 22),
             "flux": rng.loguniform(1e-2, 1e12), "band": rng.choice(BANDS), "w": rng.loguniform(3e-7, 3e-6),
             "d": rng.loguniform(0.05, 2.0), "mask": [[float(rng.random() < 0.7) for _ in range(n_m)] for _ in range(n_m)],
-            "ps": rng.loguniform(0.01, 1.0), "t": rng.loguniform(1e-3, 10), "nfr2": rng.randint(2, 6), "nsub": rng.randint(1, 4),
+            "ps": rng.loguniform(0.01, 1.0), "t": rng.loguniform(1e-3, 10), "nfr2": rng.randint(2, 6), "nsub": rng.randint(1, 4), "offsets": [rng.uniform(-3, 3) for _ in range(4)],
             "v": rng.loguniform(1, 60), "h": rng.loguniform(100, 20000),
             "stack": (10 ** npr.uniform(-16, -12, size=shape)).tolist(),
             "stack_aux": (10 ** npr.uniform(0.5, 4.3, size=shape)).tolist(), "axis": rng.randrange(-rank, rank)}
